@@ -2,7 +2,7 @@
 """
 Split a Lean lemma file into one module per top-level declaration (development tool, run by hand).
 
-  tools/lean_split.py lean/Qvnt/Lemmas/GenQuant.lean [...]
+  tools/lean_split.py FILE.lean [...]      files in dependency order; `=FILE.lean` only narrows the imports of FILE
 
 Why: the equalities `translated source = model` are obligations of different properties. Lean compiles a module as a
 whole, so one equality that no longer holds made every other equality of the same file (and of every file importing it)
@@ -17,6 +17,47 @@ The context of a declaration (`namespace`, `open`, `variable`, `set_option`, `se
 import os, re, sys
 
 KW = r"(?:@\[[^\]]*\]\s*)*(?:private\s+|protected\s+|noncomputable\s+)*(theorem|lemma|def|abbrev|instance|structure|inductive|example)\b"
+
+
+REGISTRY = {}      # umbrella module -> {"decls": [(name, chunk module)], "imports": [module names]}
+
+
+def occurs(name, body):
+    last = name.split(".")[-1]
+    return bool(re.search(r"(?<![\w.'])" + re.escape(name) + r"(?![\w'])", body)) or \
+        ("." in name and bool(re.search(r"\." + re.escape(last) + r"(?![\w'])", body)))
+
+
+def resolve(mod, body, acc):
+    """the modules to import instead of the umbrella `mod`: its chunks whose names occur in `body`, and (recursively) what
+    the umbrella itself imports from outside"""
+    if mod not in REGISTRY:
+        if mod not in acc:
+            acc.append(mod)
+        return
+    r = REGISTRY[mod]
+    for i in r["imports"]:
+        resolve(i, body, acc)
+    if r.get("self") and mod not in acc:
+        acc.append(mod)
+    for name, cm in r["decls"]:
+        if occurs(name, body) and cm not in acc:
+            acc.append(cm)
+
+
+def narrow_imports(path):
+    """keep the file, replace imports of split umbrellas by the chunks it names"""
+    src = open(path).read()
+    imps = re.findall(r"^import (\S+)", src, re.M)
+    body = re.sub(r"^import \S+\n", "", src, flags=re.M)
+    acc = []
+    for i in imps:
+        resolve(i, body, acc)
+    modname = os.path.relpath(os.path.splitext(path)[0], os.path.join(os.path.dirname(path), "..", "..")).replace(os.sep, ".")
+    REGISTRY[modname] = {"decls": [], "imports": imps, "self": True}
+    head_end = src.index("import ")
+    open(path, "w").write(src[:head_end] + "".join(f"import {m}\n" for m in acc) + body[head_end:])
+    print(f"{path}: imports narrowed to {len(acc)} modules")
 
 
 def split_file(path):
@@ -50,6 +91,12 @@ def split_file(path):
             j += 1
         text = "\n".join(lines[i:j]).rstrip()
         m = re.match(KW, l)
+        if re.match(r"(omit|open)\b.*\bin\s*$", l) and j == i + 1 and j < n:
+            # `omit [..] in` / `open .. in`: a prefix of the next declaration
+            k2 = j + 1
+            while k2 < n and not (lines[k2] and not lines[k2][0].isspace() and is_start(lines[k2])):
+                k2 += 1
+            items.append(("decl", "\n".join(lines[i:k2]).rstrip())); i = k2; continue
         if l.startswith("import "):
             kind = "import"
         elif m:
@@ -60,7 +107,7 @@ def split_file(path):
             kind = "ctx"
         items.append((kind, text)); i = j
     # ---- walk, keeping the context stack
-    imports = [t for k, t in items if k == "import"]
+    imports = [t.split()[1] for k, t in items if k == "import"]
     header_comment = items[0][1] if items and items[0][0] == "comment" and items[0][1].startswith("/-\n") else None
     ctx = []             # list of scopes; each scope = list of context lines (first = opener or None)
     ctx.append([])
@@ -82,7 +129,7 @@ def split_file(path):
                 ctx[-1].append(t)
             pending_doc = None
             continue
-        m = re.match(KW + r"\s+([^\s:({\[]+)", t)
+        m = re.match(r"(?:(?:omit|open)\b[^\n]*\bin\s*\n)?" + KW + r"\s+([^\s:({\[]+)", t)
         if not m:
             raise SystemExit(f"{path}: cannot find the name of: {t[:80]}")
         name = m.group(2)
@@ -105,23 +152,20 @@ def split_file(path):
             os.remove(os.path.join(outdir, f))
     seen = {}
     for d in decls:
-        deps = []
-        body = d["text"]
-        for prev in decls:
-            if prev is d:
-                break
-            last = prev["name"].split(".")[-1]
-            if re.search(r"(?<![\w.'])" + re.escape(prev["name"]) + r"(?![\w'])", body) or \
-               ("." in prev["name"] and re.search(r"\." + re.escape(last) + r"(?![\w'])", body)):
-                deps.append(prev)
+        body = d["open"] + "\n" + d["text"]
+        deps = [prev for prev in decls[:decls.index(d)] if occurs(prev["name"], d["text"])]
         if d["file"] in seen:
             raise SystemExit(f"{path}: two declarations named {d['name']}")
         seen[d["file"]] = 1
+        acc = []
+        for i in imports:
+            resolve(i, body, acc)
         out = f"/- `{d['name']}` of {os.path.basename(path)} (one module per declaration, tools/lean_split.py) -/\n"
-        out += "\n".join(imports) + "\n"
+        out += "".join(f"import {m}\n" for m in acc)
         out += "".join(f"import {modbase}.{p['file']}\n" for p in deps)
         out += "\n" + d["open"] + "\n\n" + d["text"] + "\n\n" + d["close"] + "\n"
         open(os.path.join(outdir, d["file"] + ".lean"), "w").write(out)
+    REGISTRY[modbase] = {"decls": [(d["name"], f"{modbase}.{d['file']}") for d in decls], "imports": imports}
     umb = (header_comment + "\n") if header_comment else ""
     umb += "".join(f"import {modbase}.{d['file']}\n" for d in decls)
     open(path, "w").write(umb)
@@ -130,4 +174,7 @@ def split_file(path):
 
 if __name__ == "__main__":
     for p in sys.argv[1:]:
-        split_file(p)
+        if p.startswith("="):
+            narrow_imports(p[1:])
+        else:
+            split_file(p)
